@@ -50,6 +50,11 @@ class ToolFailure(Exception):
     """the machinery itself failed (exit 2): never a verdict about androguard"""
 
 
+class StopSearch(Exception):
+    """the verdict is settled (an unlisted failing input is on record and the run has already been going on
+    for a while): stop generating more cases and go to Check.finish()"""
+
+
 def quiet_androguard():
     """androguard logs through loguru to stderr; keep check output readable."""
     try:
@@ -293,6 +298,12 @@ class Check:
         """a failing input found on the REAL code by the independent oracle.
         key: precise signature of the failing case (matched against known_findings.jsonl)."""
         self.failures.append({"case": case, "what": what, "key": key, "expected": expected, "observed": observed})
+        if key is None or match_known(self.known, self.failures[-1]) is None:
+            self._unlisted = getattr(self, "_unlisted", 0) + 1
+            limit = float(os.environ.get("VERIF_STOP_AFTER_S", "150"))
+            if (time.time() - self.t0 > limit or self._unlisted >= 5000) and not os.environ.get("VERIF_NO_STOP"):
+                self.notes.append("search stopped early: an unlisted failing input was on record and the run had used its time budget")
+                raise StopSearch()
 
     def cover(self, evaluations=0, distinct=(), samples=(), dist=None):
         self.evaluations += evaluations
@@ -509,7 +520,10 @@ def main(argv):
     tier = argv[1] if argv[1] in ("quick", "thorough") else os.environ.get("VERIF_TIER", "quick")
     ck = Check(prop, tier, seed)
     try:
-        mod.run(ck)
+        try:
+            mod.run(ck)
+        except StopSearch:
+            pass
         return ck.finish()
     except ToolFailure as e:
         print(f"[{prop}] TOOL FAILURE: {e}", flush=True)
